@@ -1,5 +1,5 @@
 """Generator of GR-world (operator graph) sessions: pure function seed -> (config, op list)."""
-from .prng import Rng, mix
+from .prng import Rng, mix, gen_globals
 
 COEFFS = [2.0, -2.0, 1.5, -1.5, 1.0, 1.0, -1.0, 0.5, -0.5, 0.25, -0.25]
 
@@ -293,9 +293,11 @@ def gen_session(prop: str, tier: str, seed: int) -> dict:
             idmap[o] = pool_ids[o - 1]
     else:
         idmap = {o: o for o in range(0, K + 1)}
-    cfg = {'world': 'gr', 'profile': profile, 'tier': tier, 'L': L, 'K': K, 'charges': ch, 'd': d, 'qd': qd, 'idmap': {str(k): v for k, v in idmap.items()}, 'enabled': ['CBCALLS', 'CBBUF'], 'faultfree': True,
+    cfg = {'world': 'gr', 'profile': profile, 'tier': tier, 'L': L, 'K': K, 'charges': ch, 'd': d, 'qd': qd, 'idmap': {str(k): v for k, v in idmap.items()}, 'enabled': ['CBCALLS', 'CBBUF', 'GLOBALS'], 'faultfree': True,
            'opmap_seed': rng.sub()}
     nops = rng.randrange(3, 13) if tier == 'quick' else rng.randrange(4, 25)
+    if rng.chance(0.05):
+        cfg['pyopt'] = True       # run this session under `python -O`
     ops = []
     first = {'C05': 'from_opchains', 'C16': rng.pick(['random_layered', 'from_opchains', 'from_optrees', 'from_automaton']),
              'C17': rng.pick(['from_optrees', 'from_automaton']), 'C19': rng.pick(['from_opchains', 'random_layered']), 'C20': 'from_opchains'}[profile]
@@ -303,8 +305,12 @@ def gen_session(prop: str, tier: str, seed: int) -> dict:
     table = list(BODY[profile].items())
     for _ in range(nops):
         ops.append(gen_op(rng, cfg, rng.wpick(table)))
+    use_globals = rng.chance(0.5)
+    cfg['faultfree'] = not use_globals
     for op in ops:
         op['env'] = {'gauge': rng.sub(), 'kinds': []}
+        if use_globals and rng.chance(0.35):
+            op['env']['globals'] = gen_globals(rng)
     # relabel operator ids everywhere in the op specs
     def rel_opics(lst):
         return [[idmap[int(a)], b] for a, b in lst] if lst is not None else None
